@@ -47,10 +47,11 @@ STR_KW = ["key_file", "key_password", "cert_file", "cert_reqs", "ca_certs", "ca_
 INT_KW = ["timeout", "retries", "maxsize", "blocksize", "ssl_minimum_version", "ssl_maximum_version"]
 BOOL_KW = ["block"]
 OBJ_KW = ["ssl_context", "headers", "_proxy", "_proxy_headers", "_proxy_config", "socket_options", "source_address",
-          "_socks_options", "timeout_obj", "retries_obj", "assert_hostname_false", "retries_false", "headers_hd", "_proxy_headers_hd"]
+          "_socks_options", "timeout_obj", "retries_obj", "assert_hostname_false", "retries_false", "headers_hd", "_proxy_headers_hd", "timeout_total", "timeout_read"]
 
 REAL_KW = {"timeout_obj": "timeout", "retries_obj": "retries", "assert_hostname_false": "assert_hostname",
-           "retries_false": "retries", "headers_hd": "headers", "_proxy_headers_hd": "_proxy_headers"}
+           "retries_false": "retries", "headers_hd": "headers", "_proxy_headers_hd": "_proxy_headers",
+           "timeout_total": "timeout", "timeout_read": "timeout"}
 
 HOSTS = ["h.example", "H.EXAMPLE", "h.Example"]
 
@@ -121,6 +122,8 @@ def OBJ_VALUES(name, sv="x", si=1):
         "source_address": [(sv, si), (sv, si + 1), ("0.0.0.0", 0)],
         "_socks_options": [{"username": sv}, {"username": sv + "z"}, {"rdns": "1"}],
         "timeout_obj": [Timeout(connect=si), Timeout(connect=si + 1), Timeout(read=3)],
+        "timeout_total": [Timeout(total=si, connect=1, read=1), Timeout(total=si + 1, connect=1, read=1), Timeout(total=3)],
+        "timeout_read": [Timeout(read=si, connect=1), Timeout(read=si + 1, connect=1), Timeout(read=3)],
         "retries_obj": [Retry(total=si), Retry(total=si + 1), Retry(5)],
         "assert_hostname_false": [False, sv, "other"],
         "retries_false": [False, si, 9],
